@@ -164,6 +164,11 @@ func convertVMFunctionToType(rv reflect.Value, rt reflect.Type) (reflect.Value, 
 		// TOFIX: use normal context
 		args = append(args, reflect.ValueOf(context.Background()))
 		for i := 0; i < rt.NumIn(); i++ {
+			if rv.Type().IsVariadic() && i+1 >= rv.Type().NumIn()-1 {
+				// the variadic parameter of a runVMFunction takes the values as they are
+				args = append(args, in[i])
+				continue
+			}
 			// have to do the double reflect.ValueOf that runVMFunction expects
 			args = append(args, reflect.ValueOf(in[i]))
 		}
